@@ -69,6 +69,8 @@ type tIter struct {
 	ents  []tent
 	i     int
 	clean tdec
+	reuse bool   // hand out every key in the SAME buffer (the Iterator contract: a key is valid until the next call)
+	buf   []byte
 }
 
 func (it *tIter) Next() ([]byte, error) {
@@ -76,6 +78,13 @@ func (it *tIter) Next() ([]byte, error) {
 		return nil, io.EOF
 	}
 	it.i++
+	if it.reuse {
+		if cap(it.buf) < 600 {
+			it.buf = make([]byte, 0, 600)
+		}
+		it.buf = append(it.buf[:0], it.ents[it.i-1].Key...)
+		return it.buf, nil
+	}
 	return it.ents[it.i-1].Key, nil
 }
 func (it *tIter) Merge(old []byte) ([]byte, error) { return it.ents[it.i-1].Dec.apply(old) }
@@ -163,8 +172,9 @@ func areaStrategy(r *Rng, n int, dir string) (*AreaOut, error) {
 		less := keyLess(flags&strategy.LMDBIntegerKeyFlag != 0)
 		// stored content
 		var stored []pair
+		emptyStored := r.Chance(8) // a DBI that holds nothing yet (first load)
 		for _, k := range pool {
-			if r.Chance(35) {
+			if r.Chance(35) && !emptyStored {
 				if flags&lmdb.DupSort == 0 && r.Chance(12) {
 					stored = append(stored, pair{k, []byte{}}) // LMDB allows a zero-length value: the key is present
 					continue
@@ -211,6 +221,13 @@ func areaStrategy(r *Rng, n int, dir string) (*AreaOut, error) {
 				shape = "rotated"
 			}
 		}
+		if strat == "update" && emptyStored && len(ents) >= 1 && shape == "sorted" && r.Chance(60) {
+			// Update takes unsorted input with repeated keys: the second occurrence of a key sees what the first one
+			// stored, also when the DBI was empty when the call began
+			a := r.Intn(len(ents))
+			ents = append(ents, tent{ents[a].Key, pick(r, []tdec{{"append", []byte("+2")}, {"ifabsent", []byte("second")}, {"keep", nil}})})
+			shape = "repeated-on-empty"
+		}
 		clean := genDec(r, r.Chance(8))
 		if allKeep {
 			clean = tdec{"keep", nil}
@@ -219,6 +236,7 @@ func areaStrategy(r *Rng, n int, dir string) (*AreaOut, error) {
 			clean = tdec{"keep", nil}
 		}
 
+		reuseBuf := r.Chance(30)
 		var result []pair
 		var runErr error
 		var panicked any
@@ -233,7 +251,7 @@ func areaStrategy(r *Rng, n int, dir string) (*AreaOut, error) {
 				}
 			}
 			stored, _ = dumpDBI(txn, dbi) // canonical stored content (LMDB order, dup pairs collapsed)
-			it := &tIter{ents: ents, clean: clean}
+			it := &tIter{ents: ents, clean: clean, reuse: reuseBuf}
 			func() {
 				defer func() { panicked = recover() }()
 				switch strat {
@@ -285,6 +303,12 @@ func areaStrategy(r *Rng, n int, dir string) (*AreaOut, error) {
 			okind = fmt.Sprintf("err%d", errClass(runErr))
 		}
 		hist(out.Hist, strat+"/"+kind+"/"+shape+"/"+okind)
+		if reuseBuf {
+			hist(out.Hist, "iterator-reuses-key-buffer")
+		}
+		if emptyStored {
+			hist(out.Hist, "stored-empty/"+strat+"/"+shape)
+		}
 		out.CaseDescs = append(out.CaseDescs, key)
 
 		// ---- implementation-side oracle (C19): a map-based reference of the property statement ----
